@@ -945,6 +945,13 @@ def gen_c12_pool(r, deep=0):
     ex["ov"] = ["chain", "+", [["lincomb", [r.choice(POS) for _ in ve], ["vexpr", [["*", r.choice(pl), L(n)] for n in ve]]], ["num", r.choice([0.0, 1.5])],
                                ["num", 0.0], ["num", 0.0], ["num", 1.0]] + [["num", 0.0]] * deep]
     cons["cv"] = {"k": "s", "lhs": ["lincomb", [1.0 for _ in ve], ["vexpr", [["*", r.choice(pl), L(n)] for n in ve]]], "sense": "<=", "rhs": ["num", r.choice([4.0, 9.0])]}
+    # a running balance written term by term (supply - demand_0 - demand_1 - ... >= k): affine with
+    # constant partial derivatives, the parameters are purely additive; `deep` extra terms
+    bal = pick(2)
+    terms = [L(bal[0]), ["*", ["num", r.choice(POS)], L(bal[-1])]] if len(bal) > 1 else [L(bal[0])]
+    terms += [["neg", p] for p in r.sample(pl, min(len(pl), r.choice([1, 2])))]
+    ex["gd"] = ["chain", "+", terms + [["num", 0.0]] * deep]
+    cons["cd"] = {"k": "s", "lhs": ["chain", "+", terms + [["num", 0.0]] * deep], "sense": ">=", "rhs": ["num", r.choice([-2.0, 0.0, 0.5])]}
     # constraints without any decision variable: their truth changes with Parameter.set alone
     pa, pb = r.choice(pl), r.choice(pl)
     cons["cp0"] = {"k": "s", "lhs": pa, "sense": r.choice([">=", "<="]), "rhs": pb if r.random() < 0.6 else ["num", r.choice(PGRID)]}
@@ -968,7 +975,7 @@ def gen_c12_pool(r, deep=0):
         cons["c6"] = {"k": "s", "lhs": ["*", ["lincomb", [r.choice(POS) for _ in vnames2], vec2], r.choice(pl)], "sense": ">=", "rhs": ["num", r.choice([-3.0, 0.5])]}
     sp["expr_order"] = sorted(ex)
     sp["con_order"] = sorted(cons)
-    meta = {"convex": ["o0"], "lincons": ["c0", "c2", "c3"], "linear": ["o4", "ov"] + (["o6", "o8"] if vhs else []), "linpcons": ["c1", "cv"] + (["c5", "c6"] if vhs else [])}
+    meta = {"convex": ["o0"], "lincons": ["c0", "c2", "c3"], "linear": ["o4", "ov"] + (["o6", "o8"] if vhs else []), "linpcons": ["c1", "cv", "cd"] + (["c5", "c6"] if vhs else [])}
     return sp, meta
 
 
@@ -1090,6 +1097,9 @@ def gen_c12(r):
     for c in r.sample(cnames, r.choice([0, 1, 2])):
         ops.append(["subject_to", 0, c])
         cur_cons.append(c)
+    if deep and "cd" not in cur_cons and r.random() < 0.6:
+        ops.append(["subject_to", 0, "cd"])  # the deep running balance, whenever the pool is deep
+        cur_cons.append("cd")
     n = r.randint(4, 20)
     for _ in range(n):
         k = r.random()
